@@ -136,18 +136,11 @@ def parseErrDiag (e : ParseErr) : Diag :=
     text := t.text }
 
 /-- the label with the smallest name (`labels.iter().min()`; the first one among equals) -/
-def minLabelStep (acc : Option (W String)) (l : W String) : Option (W String) :=
-  match acc with
-  | none => some l
-  | some m => if l.val < m.val then some l else some m
-
-def minLabel (ls : List (W String)) : Option (W String) := ls.foldl minLabelStep none
-
 def cfgErrDiag : CfgErr → Diag
   | .labelsNotDefined ls =>
     let names := sortStrings (ls.map (·.val))
-    -- located at the label with the smallest name (`labels.iter().min()`)
-    let first := (minLabel ls).getD ls.head!
+    -- located at the label written first (`first_used`: by offsets, then by name)
+    let first := (firstLabel ls).getD ls.head!
     { code := "cfg-error", sev := "Error", title := s!"Labels not defined: {", ".intercalate names}",
       range := first.tok.range, file := first.tok.file }
   | .duplicateLabel l =>
